@@ -87,6 +87,16 @@ fn gen_prog(t: &mut Tape, ctx: &Ctx) -> Prog {
     Prog { input_labels, steps, outputs, smuggle: t.chance(1, 10) }
 }
 
+/// C19's reading of the operator labels: every binary operator is made non-commutative (the second
+/// operand is rotated first), so that a swapped operand order changes the value
+fn interp19(label: u32, a: &[u64]) -> Vec<u64> {
+    if a.len() == 2 && label < 100 {
+        super::c16::interp(label, &[a[0], a[1].rotate_left(1) ^ 0x5555])
+    } else {
+        super::c16::interp(label, a)
+    }
+}
+
 fn generic_label(k: u32, n: usize) -> u32 {
     400 + 10 * k + n as u32
 }
@@ -96,7 +106,7 @@ fn run_direct(p: &Prog, x: &[u64]) -> Vec<u64> {
     let mut env: Vec<u64> = x.to_vec();
     for s in &p.steps {
         match s {
-            Step::Bin(op, a, b) => env.push(super::c16::interp(*op, &[env[*a], env[*b]])[0]),
+            Step::Bin(op, a, b) => env.push(interp19(*op, &[env[*a], env[*b]])[0]),
             Step::Un(op, a) => env.push(super::c16::interp(*op, &[env[*a]])[0]),
             Step::Operation(k, args, n) => {
                 let a: Vec<u64> = args.iter().map(|&i| env[i]).collect();
@@ -218,6 +228,18 @@ fn program_case(ctx: &mut Ctx, p: &Prog, xs: &[Vec<u64>]) -> CheckResult {
     ensure!(ctx, l.q.is_empty(), "term-structure", "the built term has pending unifications {:?}", l.q);
     ensure!(ctx, l.d.s.len() == p.input_labels.len() && l.d.t.len() == p.outputs.len(), "term-structure", "interfaces have lengths {} and {}, declared {} and {}", l.d.s.len(), l.d.t.len(), p.input_labels.len(), p.outputs.len());
     ensure!(ctx, l.d.source_type() == p.input_labels, "term-structure", "source type {:?} but the inputs were declared {:?}", l.d.source_type(), p.input_labels);
+    // type of every variable as the signature declares it (binary / unary operators: type of the
+    // (left) operand; generic operations: the declared result types)
+    let mut var_labels: Vec<u32> = p.input_labels.clone();
+    for s in &p.steps {
+        match s {
+            Step::Bin(_, a, _) | Step::Un(_, a) => var_labels.push(var_labels[*a]),
+            Step::Operation(_, _, n) => var_labels.extend(std::iter::repeat(1).take(*n)),
+            Step::FnOp(_, _) => var_labels.push(0),
+        }
+    }
+    let want_t: Vec<u32> = p.outputs.iter().map(|&i| var_labels[i]).collect();
+    ensure!(ctx, l.d.target_type() == want_t, "term-structure", "target type {:?} but the outputs were declared with types {:?}", l.d.target_type(), want_t);
     // every variable edge has exactly one source (its definition)
     for e in l.d.edges.iter().filter(|e| e.label == VAR) {
         ensure!(ctx, e.src.len() == 1, "term-structure", "a variable hyperedge has {} definitions: {:?}", e.src.len(), e);
@@ -233,14 +255,14 @@ fn program_case(ctx: &mut Ctx, p: &Prog, xs: &[Vec<u64>]) -> CheckResult {
     for x in xs {
         let want = run_direct(p, x);
         ctx.sub("term-means-program");
-        let (got_ref, _) = super::c16::reference(&m, x);
+        let (got_ref, _) = super::c16::reference_with(&m, x, &|e: &Edge, a: &[u64]| interp19(e.label, a));
         ensure!(ctx, got_ref == want, "term-means-program", "the term evaluates to {:?} (reference interpreter) but the program gives {:?} on {:?}; term = {}", got_ref, want, x, l.d.pretty());
-        let (got, _) = sv::op_eval(&m, x, &super::c16::interp);
+        let (got, _) = sv::op_eval(&m, x, &interp19);
         ensure!(ctx, got.as_ref() == Some(&want), "term-means-program", "eval(term) = {:?} but the program gives {:?} on {:?}", got, want, x);
         ctx.sub("forget-keeps-meaning");
-        let (got, _) = sv::op_eval(&fm, x, &super::c16::interp);
+        let (got, _) = sv::op_eval(&fm, x, &interp19);
         ensure!(ctx, got.as_ref() == Some(&want), "forget-keeps-meaning", "eval(forget(term)) = {:?} but the program gives {:?} on {:?}; forget = {}", got, want, x, fm.pretty());
-        let (got, _) = sv::op_eval(&vars_as_copies(&fmono), x, &super::c16::interp);
+        let (got, _) = sv::op_eval(&vars_as_copies(&fmono), x, &interp19);
         ensure!(ctx, got.as_ref() == Some(&want), "forget-keeps-meaning", "eval(forget_monogamous(term)) = {:?} but the program gives {:?} on {:?}", got, want, x);
     }
     // shared variable between >= 2 operators
